@@ -59,6 +59,7 @@ func c02ReadCheck(it corpusItem, input, frame []byte, p readPattern) *ev.Finding
 
 func c02Run(c *ev.Ctx) {
 	seen := map[uint64]bool{}
+	reusedReaders := map[int]*lz4.Reader{}
 	emit := func(it corpusItem, input, frame []byte, err error) {
 		c.Eval(1)
 		if err != nil {
@@ -81,6 +82,43 @@ func c02Run(c *ev.Ctx) {
 		c.Add("distinct_frames", 1)
 		if len(seen)%97 == 1 {
 			c.Sample(it)
+		}
+		// one long-lived Reader per concurrency level reads every distinct frame through Reset, so
+		// each frame follows frames of other block sizes, formats and flags
+		for _, conc := range []int{1, 2} {
+			if it.In.Len > 1<<20 {
+				break
+			}
+			r := reusedReaders[conc]
+			var out bytes.Buffer
+			var rerr error
+			pmsg := ""
+			func() {
+				defer func() {
+					if x := recover(); x != nil {
+						pmsg = fmt.Sprint(x)
+					}
+				}()
+				if r == nil {
+					r = lz4.NewReader(bytes.NewReader(frame))
+					r.Apply(lz4.ConcurrencyOption(conc))
+					reusedReaders[conc] = r
+				} else {
+					r.Reset(bytes.NewReader(frame))
+				}
+				if len(seen)%2 == 0 {
+					_, rerr = r.WriteTo(&out)
+				} else {
+					_, rerr = io.Copy(&out, struct{ io.Reader }{r})
+				}
+			}()
+			c.Eval(1)
+			c.Add("reused_reader_decodes", 1)
+			if pmsg != "" || rerr != nil || !bytes.Equal(out.Bytes(), input) {
+				delete(reusedReaders, conc)
+				c.Report(&ev.Finding{Sig: fmt.Sprintf("a Reader reused through Reset does not decode a frame that a new Reader decodes (legacy=%v conc>1=%v)", it.Opts.Legacy, conc > 1),
+					What: fmt.Sprintf("panic=%q err=%v %s; %s input=%+v", pmsg, rerr, describeDiff(out.Bytes(), input), it.Opts, it.In), Case: c02Case{Item: it}})
+			}
 		}
 		small := it.In.Len <= it.Opts.blockLen()+1
 		for _, p := range readPatterns(it.Opts.blockLen(), small) {
